@@ -21,19 +21,25 @@ CONSTANTS Plugins,        \* set of plugin names
           HsFaults,       \* faults allowed for the handshake step
           GenFaults,      \* ... generate step
           ByeFaults,      \* ... goodbye step
-          NamesGoodbyeFailure   \* TRUE: repaired tree (goodbye errors name the plugin)
+          NamesGoodbyeFailure,  \* TRUE: repaired tree (goodbye errors name the plugin)
+          DetachesStdout        \* TRUE: the code (stdout is detached before Wait); FALSE: negative control
 
 \* handshake faults: "ok" "nofeature" "wrongname" "wrongversion" "exception" "garbage"
 \*                   "trunc" "exitbefore" "exitafter"
 \* generate faults:  "ok" "exception" "garbage" "trunc" "exit" "dotdot" "samepath"
 \* goodbye faults:   "ok" "noreply" "garbage"
+\* "garbageflood" (handshake) and "flood" (goodbye): the plugin answers (garbage / a proper reply), keeps writing to its
+\* stdout without ever reading its stdin again and goes away only when nobody reads its stdout any more (EPIPE).  The host
+\* gets rid of it because process.Client.Close detaches stdout BEFORE it waits (DetachesStdout; FALSE = negative control).
 
 HsGood(f)    == f \in {"ok", "nofeature"}
 HsFeature(f) == f = "ok"
-HsReplies(f) == f \in {"ok", "nofeature", "wrongname", "wrongversion", "exception", "garbage"}  \* a complete frame comes back
+HsReplies(f) == f \in {"ok", "nofeature", "wrongname", "wrongversion", "exception", "garbage", "garbageflood"}  \* a complete frame comes back
 GenGood(f)   == f \in {"ok", "samepath"}
 GenReplies(f) == f \in {"ok", "exception", "garbage", "dotdot", "samepath"}
-ByeReplies(f) == f \in {"ok", "garbage"}
+ByeReplies(f) == f \in {"ok", "garbage", "flood"}
+ByeGood(f)    == f \in {"ok", "flood"}
+Lingers(f)    == f \in {"flood", "garbageflood"}
 
 VARIABLES
   script,    \* [Plugins -> [hs, gen, bye]]  the fault script of each plugin (chosen initially)
@@ -79,7 +85,7 @@ PluginHandle(p) ==
   /\ LET r == toP[p]
          f == IF r = "handshake" THEN script[p].hs ELSE IF r = "generate" THEN script[p].gen ELSE script[p].bye
          replies == IF r = "handshake" THEN HsReplies(f) ELSE IF r = "generate" THEN GenReplies(f) ELSE ByeReplies(f)
-         broken == f \in {"garbage"}
+         broken == f \in {"garbage", "garbageflood"}
      IN /\ toP' = [toP EXCEPT ![p] = "none"]
         /\ IF f = "exitbefore"                       \* dies without having read the request
            THEN /\ hist' = [hist EXCEPT ![p] = @ \o <<"exit">>]
@@ -87,7 +93,10 @@ PluginHandle(p) ==
                 /\ UNCHANGED fromP
            ELSE IF replies
            THEN /\ fromP' = [fromP EXCEPT ![p] = IF broken THEN "broken" ELSE "reply"]
-                /\ IF r = "goodbye"                   \* a goodbye stops the server loop after the reply
+                /\ IF Lingers(f)                     \* keeps writing; gone only once the host stops reading
+                   THEN /\ hist' = [hist EXCEPT ![p] = @ \o <<r>>]
+                        /\ ppc' = [ppc EXCEPT ![p] = "flooding"] /\ UNCHANGED stdoutOpen
+                   ELSE IF r = "goodbye"                   \* a goodbye stops the server loop after the reply
                    THEN /\ hist' = [hist EXCEPT ![p] = @ \o <<r, "exit">>]
                         /\ ppc' = [ppc EXCEPT ![p] = "exited"] /\ stdoutOpen' = [stdoutOpen EXCEPT ![p] = FALSE]
                    ELSE /\ hist' = [hist EXCEPT ![p] = @ \o <<r>>]
@@ -102,6 +111,15 @@ PluginHandle(p) ==
 PluginEOF(p) ==
   /\ ppc[p] = "serving" /\ toP[p] = "none" /\ ~stdinOpen[p]
   /\ hist' = [hist EXCEPT ![p] = @ \o <<"eof", "exit">>]
+  /\ ppc' = [ppc EXCEPT ![p] = "exited"] /\ stdoutOpen' = [stdoutOpen EXCEPT ![p] = FALSE]
+  /\ UNCHANGED <<script, phase, hpc, toP, fromP, stdinOpen, waited, hsRes, genRes, byeRes, sent, named, code, wrote>>
+
+\* the host's end of the plugin's stdout is closed by process.Client.Close before it waits for the process
+HostDetached(p) == DetachesStdout /\ hpc[p] \in {"wait", "failwait", "closed", "failed"}
+\* a plugin blocked writing to a pipe nobody reads any more gets EPIPE and goes away
+PluginEPIPE(p) ==
+  /\ ppc[p] = "flooding" /\ HostDetached(p)
+  /\ hist' = [hist EXCEPT ![p] = @ \o <<"exit">>]
   /\ ppc' = [ppc EXCEPT ![p] = "exited"] /\ stdoutOpen' = [stdoutOpen EXCEPT ![p] = FALSE]
   /\ UNCHANGED <<script, phase, hpc, toP, fromP, stdinOpen, waited, hsRes, genRes, byeRes, sent, named, code, wrote>>
 
@@ -207,7 +225,7 @@ SendGoodbye(p) ==
 
 RecvGoodbye(p) ==
   /\ Closing /\ hpc[p] = "recv-bye" /\ ReplyReady(p)
-  /\ LET ok == ReplyKind(p) = "reply" /\ script[p].bye = "ok"
+  /\ LET ok == ReplyKind(p) = "reply" /\ ByeGood(script[p].bye)
      IN /\ byeRes' = [byeRes EXCEPT ![p] = IF ok THEN "ok" ELSE "fail"]
         /\ named' = IF ok \/ ~NamesGoodbyeFailure THEN named ELSE named \cup {p}
   /\ fromP' = [fromP EXCEPT ![p] = "none"]
@@ -232,7 +250,7 @@ HostExit ==
   /\ UNCHANGED <<script, hpc, ppc, toP, fromP, stdinOpen, stdoutOpen, waited, hsRes, genRes, byeRes, hist, sent, named, wrote>>
 
 Next ==
-  \/ \E p \in Plugins : PluginHandle(p) \/ PluginEOF(p)
+  \/ \E p \in Plugins : PluginHandle(p) \/ PluginEOF(p) \/ PluginEPIPE(p)
   \/ \E p \in Plugins : Spawn(p) \/ SendHandshake(p) \/ RecvHandshake(p) \/ FailClose(p) \/ FailWait(p)
   \/ OpenBarrier
   \/ \E p \in Plugins : SendGenerate(p) \/ RecvGenerate(p)
